@@ -96,7 +96,7 @@ func ruleC03G1(c *Ctx, r *rbcModel) {
 // G2: never an empty placeholder.
 func ruleC03G2(c *Ctx, r *rbcModel) {
 	const rule = "C03.G2"
-	c.Rule(rule, "value handed to the backend is non-nil on every path", 2)
+	c.Rule(rule, "value handed to the backend is non-nil on every path", 1)
 	for _, h := range r.handovers {
 		fn := h.Parent()
 		arg := strip(h.Common().Args[0])
@@ -261,7 +261,6 @@ func ruleC03V3Named(c *Ctx, r *rbcModel, rule string) {
 	}
 }
 
-
 // countingArgument re-checks the premises under which |vouchers| ≥ N−1 implies
 // that the payload was received directly. Returns "" when all hold, else the
 // first premise that fails.
@@ -357,7 +356,6 @@ func (r *rbcModel) countingArgument(c *Ctx) string {
 	}
 	return ""
 }
-
 
 // storeUnconditionalIn: in context sc the store executes whenever its function
 // does: every mandatory branch outcome is "<the message> != nil", which holds
